@@ -1,1 +1,2 @@
 import CbGen.RangeTable
+import CbGen.Ladder
